@@ -384,15 +384,31 @@ pub fn render(file: &FileSpec) -> Rendered {
         })
         .collect();
     if !plugins.is_empty() {
-        let line = w.cur();
-        let mods: Vec<String> = plugins.iter().map(|p| format!("\"fx{}\"", p.module)).collect();
-        if mods.len() == 1 {
-            w.push(format!("pytest_plugins = {}", mods[0]));
-        } else {
-            w.push(format!("pytest_plugins = [{}]", mods.join(", ")));
-        }
-        for p in plugins {
-            out.imports.push(ImportTok { line, spec: (*p).clone() });
+        // one assignment per group (`level`), ascending; only the last assignment is effective
+        let mut groups: Vec<u8> = plugins.iter().map(|p| p.level).collect();
+        groups.sort();
+        groups.dedup();
+        let last = *groups.last().unwrap();
+        for g in groups {
+            let line = w.cur();
+            let members: Vec<&&ImportSpec> = plugins.iter().filter(|p| p.level == g).collect();
+            let mods: Vec<String> = members.iter().map(|p| format!("\"fx{}\"", p.module)).collect();
+            if mods.len() == 1 {
+                match members[0].module % 3 {
+                    0 => w.push(format!("pytest_plugins = [{}]", mods[0])),
+                    1 => w.push(format!("pytest_plugins = {}", mods[0])),
+                    _ => w.push(format!("pytest_plugins: list = [{}]", mods[0])),
+                }
+            } else if g % 2 == 0 {
+                w.push(format!("pytest_plugins = [{}]", mods.join(", ")));
+            } else {
+                w.push(format!("pytest_plugins = ({})", mods.join(", ")));
+            }
+            if g == last {
+                for p in members {
+                    out.imports.push(ImportTok { line, spec: (**p).clone() });
+                }
+            }
         }
     }
     w.push(String::new());
